@@ -3,5 +3,5 @@ CONSTANTS
   MaxN = 4
   MaxLinks = 2
   Extra = 1
-INVARIANTS NeverTwice EnteredOnce OnlyBehind ExactAtEnd PlainAtEnd EnteredAtEnd QueueOnlyInBfs
+INVARIANTS NeverTwice EnteredOnce OnlyBehind ExactAtEnd PlainAtEnd WindowAtEnd EnteredAtEnd QueueOnlyInBfs
 PROPERTY Terminates
